@@ -21,7 +21,7 @@ impl Check for C05 {
     }
     fn runs(&self, tier: Tier) -> u64 {
         match tier {
-            Tier::Quick => 30_000,
+            Tier::Quick => 60_000,
             Tier::Thorough => 2_000_000,
         }
     }
@@ -83,7 +83,7 @@ impl Check for C20 {
     }
     fn runs(&self, tier: Tier) -> u64 {
         match tier {
-            Tier::Quick => 16_000,
+            Tier::Quick => 32_000,
             Tier::Thorough => 800_000,
         }
     }
